@@ -452,7 +452,7 @@ func GenGolden(path string) error {
 			}
 		}
 	}
-	kv := []kinds.SKey{{"a", 1}, {"a", 2}, {"a", 10}, {"b", 0}, {"", 5}, {"ab", -1}}
+	kv := []kinds.SKey{{A: "a", B: 1}, {A: "a", B: 2}, {A: "a", B: 10}, {A: "b", B: 0}, {A: "", B: 5}, {A: "ab", B: -1}}
 	for _, a := range kv {
 		for _, b := range kv {
 			if err := addOrder("struct", a, b); err != nil {
@@ -827,9 +827,23 @@ func c14Differential(c *fw.C) {
 			}
 			return uint64(mag) << uint(r.Intn(2))
 		case "string":
+			if r.Chance(1, 3) { // long keys, common prefixes, lengths around 128 and 256
+				n := []int{120, 127, 128, 129, 130, 200, 255, 256, 257, 400}[r.Intn(10)]
+				b := make([]byte, n)
+				for i := range b {
+					b[i] = 'a' + byte(i%7)
+				}
+				for i := n - 4; i < n && i >= 0; i++ {
+					b[i] = 'a' + byte(r.Intn(26))
+				}
+				return string(b)
+			}
 			return fmt.Sprintf("k%d", r.Intn(120000))
 		case "bytes":
 			b := make([]byte, r.Intn(12))
+			if r.Chance(1, 3) {
+				b = make([]byte, []int{127, 128, 129, 255, 256, 300}[r.Intn(6)])
+			}
 			for i := range b {
 				b[i] = byte(r.Intn(256))
 			}
